@@ -31,6 +31,13 @@ pub fn plan(tier: &str, seed: u64) -> Vec<Batch> {
         for sc in 0..fault_scenarios().len() as u64 {
             v.push(Batch { check: "C14".into(), phase: "fault-enum".into(), uni: uni.clone(), seed, lo: sc, hi: sc + 1, fresh: false, tier: tier.into(), extra: Value::Null });
         }
+        // RENAME_NOREPLACE against a destination that appears while the call runs (every window), on
+        // a kernel with renameat2 and on one without
+        for norename in [false, true] {
+            let mut u2 = uni.clone();
+            u2.no_renameat2 = norename;
+            v.push(Batch { check: "C14".into(), phase: "noreplace-race".into(), uni: u2, seed, lo: 0, hi: 3, fresh: false, tier: tier.into(), extra: Value::Null });
+        }
         for i in 0..(n / 3).max(1) {
             v.push(Batch { check: "C14".into(), phase: "faulted".into(), uni: uni.clone(), seed, lo: i * PER_BATCH, hi: (i + 1) * PER_BATCH, fresh: false, tier: tier.into(), extra: Value::Null });
         }
@@ -141,6 +148,58 @@ pub fn fault_scenarios() -> Vec<OpSpec> {
         o(Op::Create { path: s("e/dangling"), kind: CreateKind::File(0o644) }),
         o(Op::Rename { src: s("d/src"), dst: s("e/dangling"), flags: 1 }),
     ]
+}
+
+fn run_noreplace_race(u: &mut Universe, b: &Batch, idx: u64, st: &mut Stats) -> bool {
+    let (src, dst, c_facade) = [("d/src", "e/dst", false), ("l/src", "e/sub/dst", false), ("d/src", "e/dst", true)][idx as usize % 3];
+    let mk = |script: Vec<crate::sup::Dec>| {
+        let mut c = Case::new("C14", "noreplace-race", b.uni.clone());
+        c.world = Some(fault_world());
+        let mut o = OpSpec::new(Op::Rename { src: src.into(), dst: dst.into(), flags: 1 });
+        if c_facade {
+            o = o.c();
+        }
+        c.jobs = vec![vec![o]];
+        c.plan.script = script;
+        c
+    };
+    let out0 = run_case(u, &mk(vec![]), &mut crate::sup::NoHooks, false);
+    if let Some(e) = &out0.harness_error {
+        st.harness_errors.push(format!("noreplace-race {idx}: {e}"));
+        return false;
+    }
+    let wins: Vec<usize> = out0.trace.iter().filter(|e| e.lib && e.op == Some(0) && e.nr != crate::seam::HYPERCALL_NR && e.nr != libc::SYS_futex).map(|e| e.step).collect();
+    let real_dst = format!("root/{}", dst.replace("l/", "d/"));
+    for w in wins {
+        let case = mk(vec![crate::sup::Dec { step: w, attack: vec![crate::world::Mutation::MkFile { path: real_dst.clone(), content: "PRECIOUS-CREATED-BY-ANOTHER-PROCESS".into() }], ..Default::default() }]);
+        let out = run_case(u, &case, &mut crate::sup::NoHooks, false);
+        if let Some(e) = &out.harness_error {
+            st.harness_errors.push(format!("noreplace-race {idx}@{w}: {e}"));
+            return false;
+        }
+        st.evaluations += 1;
+        st.merge_runout(&out);
+        st.nontrivial.insert(case.hash() ^ w as u64);
+        st.count("noreplace_race.windows", 1);
+        let created = out.attacks_applied.get("mkfile").copied().unwrap_or(0) > 0;
+        let ok = out.records.first().map(|r| r.outcome.is_ok()).unwrap_or(false);
+        st.count(if ok { "noreplace_race.rename_succeeded" } else { "noreplace_race.rename_failed" }, 1);
+        if created && ok {
+            // the other process's file existed before the rename was carried out (its creation would
+            // have failed otherwise): a successful RENAME_NOREPLACE cannot have replaced it
+            let w0 = crate::world::World { labels: Default::default(), dev: 0, root_ino: (0, 0), created_seq: 0 };
+            let survived = sys::read_file(format!("/mnt/w/{real_dst}").as_bytes(), 64).map(|b| b.starts_with(b"PRECIOUS-CREATED")).unwrap_or(false);
+            let _ = w0;
+            if !survived {
+                let v = mk_violation(&case, &out, "C14", "noreplace-replaced-a-concurrently-created-destination", "rename", format!("rename({src:?}, {dst:?}, RENAME_NOREPLACE) reported success although another process created the destination at step {w} of the call (its O_EXCL creation succeeded, so the destination existed before the rename was carried out); the file it created is gone"));
+                st.violation(&v);
+            }
+        }
+        if u.poisoned {
+            return false;
+        }
+    }
+    true
 }
 
 fn run_fault_enum(u: &mut Universe, b: &Batch, idx: u64, st: &mut Stats) -> bool {
@@ -445,6 +504,13 @@ pub fn eval_case(u: &mut Universe, case: &Case, st: &mut Stats, sample: bool) ->
             Op::Rename { src, dst, .. } => split(src).is_none() || split(dst).is_none(),
             _ => false,
         };
+        // (a walk through a loop of links with 4095-byte bodies nests more link levels than the
+        // universe's RLIMIT_NOFILE of 256 allows before the link budget is used up: the harness's
+        // own limit, not an outcome - see C04)
+        if lib_errno == Some(libc::EMFILE) && rec.faults_inside == 0 && matches!(refr, Err(libc::ELOOP)) {
+            st.count("skipped.descriptor_limit_of_the_universe", 1);
+            break;
+        }
         match (&refr, lib_errno, rec.outcome.is_ok()) {
             (Ok(_), None, true) => {}
             (Err(e), Some(le), _) if *e == le => {}
@@ -505,6 +571,11 @@ pub fn run(u: &mut Universe, b: &Batch, st: &mut Stats) {
                 Some(c) => c,
                 None => return,
             }
+        } else if b.phase == "noreplace-race" {
+            if !run_noreplace_race(u, b, idx, st) {
+                return;
+            }
+            continue;
         } else if b.phase == "fault-enum" {
             if !run_fault_enum(u, b, idx, st) {
                 return;
